@@ -1221,6 +1221,7 @@ func registerStdlib(e *Engine) {
 	registerTime(e)
 	registerProto(e)
 	registerCrypto(e)
+	registerJSON(e)
 }
 
 // streaming sha256: hash.Hash object backed by a side-table buffer.
